@@ -169,3 +169,75 @@ static int replay_file(hctx* h, const h_line* l) {
 }
 
 const h_component comp_file = { "file", gen_file, replay_file };
+
+/* ---- C02: batches consumed late.  A row batch is documented to stay valid until
+ * carquet_row_batch_free(): collect every batch of a file first, look at the data afterwards.
+ *   batlate <case as in wr> bs=<batch size> mode=<0|1|2> | nb=<batches> dg_late=<digest of data read after the
+ *           last next()> dg_now=<digest when each batch is read immediately> p_late_eq_now=0/1 */
+static uint64_t bl_fnv(uint64_t h, const uint8_t* p, size_t n) { for (size_t i = 0; i < n; i++) { h ^= p[i]; h *= 0x100000001B3ull; } return h; }
+static uint64_t batch_digest(const fcase* fc, carquet_row_batch_t* b, uint64_t h0) {
+    int nc = carquet_row_batch_num_columns(b);
+    for (int c = 0; c < nc && c < fc->ncols; c++) {
+        const void* data = NULL; const uint8_t* bm = NULL; int64_t nv = 0;
+        if (carquet_row_batch_column(b, c, &data, &bm, &nv) != CARQUET_OK) { h0 ^= 0xBAD; continue; }
+        int64_t nulls = 0;
+        if (bm) for (int64_t i = 0; i < nv; i++) if (bm[i / 8] & (1u << (i % 8))) nulls++;
+        h0 = bl_fnv(h0, (const uint8_t*)&nv, 8); h0 = bl_fnv(h0, (const uint8_t*)&nulls, 8);
+        if (!data) continue;
+        int64_t nn = nv - nulls;
+        if (fc->cols[c].ptype == 6) {
+            const carquet_byte_array_t* a = (const carquet_byte_array_t*)data;
+            for (int64_t i = 0; i < nn; i++) { h0 = bl_fnv(h0, (const uint8_t*)&a[i].length, 4); for (int32_t k = 0; k < a[i].length; k++) h0 = (h0 ^ a[i].data[k]) * 0x100000001B3ull; }
+        } else h0 = bl_fnv(h0, (const uint8_t*)data, (size_t)nn * (size_t)vsize(&fc->cols[c]));
+    }
+    return h0;
+}
+static void run_batlate(hctx* h, fcase* fc, long bs, int mode) {
+    char path[128]; snprintf(path, sizeof path, "/tmp/verif_h_%d_l.parquet", (int)getpid());
+    fprintf(h->out, "batlate");
+    { FILE* save = h->out; char* mem = NULL; size_t msz = 0; FILE* ms = open_memstream(&mem, &msz);
+      h->out = ms; print_case(h, fc); fclose(ms); h->out = save; fputs(mem + 2, h->out); free(mem); }
+    fprintf(h->out, " bs=%ld mode=%d", bs, mode); h_call(h);
+    int st[MAXSTEP + 2], nst = 0;
+    if (write_file(fc, path, st, &nst) != 0) { fprintf(h->out, " | err=create\n"); h->n_lines++; return; }
+    size_t fn; uint8_t* fb = slurp(path, &fn);
+    uint64_t dg[2] = { 0xCBF29CE484222325ull, 0xCBF29CE484222325ull }; long nb = 0;
+    for (int late = 0; late < 2; late++) {
+        carquet_error_t err; memset(&err, 0, sizeof err);
+        carquet_reader_options_t ro; carquet_reader_options_init(&ro); ro.use_mmap = mode == 1;
+        carquet_reader_t* rd = mode == 2 ? carquet_reader_open_buffer(fb, fn, &ro, &err) : carquet_reader_open(path, &ro, &err);
+        if (!rd) { dg[late] = 1; continue; }
+        carquet_batch_reader_config_t cfg; carquet_batch_reader_config_init(&cfg); cfg.batch_size = bs; cfg.num_threads = 1; cfg.use_mmap = mode == 1;
+        carquet_batch_reader_t* br = carquet_batch_reader_create(rd, &cfg, &err);
+        carquet_row_batch_t* kept[512]; long nk = 0;
+        while (br && nk < 512) {
+            carquet_row_batch_t* b = NULL;
+            if (carquet_batch_reader_next(br, &b) != CARQUET_OK || !b) break;
+            if (late) kept[nk++] = b; else { dg[0] = batch_digest(fc, b, dg[0]); carquet_row_batch_free(b); nk++; }
+        }
+        if (late) { for (long i = 0; i < nk; i++) dg[1] = batch_digest(fc, kept[i], dg[1]); for (long i = 0; i < nk; i++) carquet_row_batch_free(kept[i]); }
+        nb = nk;
+        if (br) carquet_batch_reader_free(br);
+        carquet_reader_close(rd);
+    }
+    fprintf(h->out, " | nb=%ld dg_late=%llu dg_now=%llu p_late_eq_now=%d\n", nb, (unsigned long long)dg[1], (unsigned long long)dg[0], dg[0] == dg[1]);
+    h->n_lines++; free(fb); unlink(path);
+}
+static void gen_batlate(hctx* h) {
+    long n = h->thorough ? 1500 : 120;
+    for (long i = 0; i < n; i++) {
+        fcase fc; gen_case(h, &fc, i % 2 == 0);
+        if (i % 3 != 2) { fc.cols[0].ptype = 6; fc.cols[0].tlen = 0;           /* make sure BYTE_ARRAY columns over several pages occur */
+            for (int s = 0; s < fc.nsteps; s++) if (fc.steps[s].kind == 0 && fc.steps[s].col == 0) { fstep* t = &fc.steps[s];
+                for (int j = 0; j < t->nvals; j++) { free(t->vals[j]); gen_value(h, &fc.cols[0], &t->vals[j], &t->vlen[j]); } }
+            if (h_chance(h, 2, 3)) fc.page = 1 + (long)h_below(h, 80); }
+        run_batlate(h, &fc, 1 + (long)h_below(h, 9), (int)h_below(h, 3));
+        free_case(&fc);
+    }
+}
+static int replay_batlate(hctx* h, const h_line* l) {
+    if (strcmp(l->op, "batlate") != 0) return 0;
+    fcase fc; if (parse_case(l, &fc)) return 1;
+    run_batlate(h, &fc, (long)h_ll(h_in(l, "bs")), (int)h_ll(h_in(l, "mode"))); free_case(&fc); return 1;
+}
+const h_component comp_batlate = { "batlate", gen_batlate, replay_batlate };
